@@ -34,6 +34,27 @@ UNIT = Unit(
         Raw(path="contracts/liftty.shim.rs"),
         Fn(file=L, name="get_ty", container="LiftExpr", ret="r", rewrites=[(re.compile(r"=> ty\.clone\(\),"), "=> ty.vclone(),", "*")],
            contract="ensures r == lift_ty(*self),", obligation="get_ty returns the carried type"),
+        Adt(file=L, kw="struct", name="LiftFn", rules=["attrs"]),
+        Fn(file=L, name="lambda_lift", rename="lift_fn_ret", attrs="#[verifier::loop_isolation(false)]", rules=["attrs", ("strip", "tast::"), "iter_map_collect"],
+           cut_from="let body_ty = body.get_ty();", cut_before="@block-end", cut_tail="",
+           sig="fn lift_fn_ret(state: &mut State, toplevels: &mut Vec<LiftFn>, f_name: String, f_params: Vec<(String, Ty)>, f_ret_ty: Ty, body: LiftExpr)",
+           pre_rewrites=[(re.compile(r"\bf\.(name|params|ret_ty)\b"), r"f_\1", "*"), (re.compile(r"\|\(_, (\w+)\)\| \1\.clone\(\)"), r"|__p| __p.1.vclone()", "*"),
+                         (re.compile(r"\b(\w+) != (f_ret_ty)\b"), r"ty_ne(&\1, &\2)", "*"), (re.compile(r"\b(f_ret_ty) != (\w+)\b"), r"ty_ne(&\1, &\2)", "*")],
+           rewrites=[VC, ("state.liftenv.insert_func(", "state.insert_func_ty(", "*"),
+                     (re.compile(r"params: \{ let mut (__mo\d+) = Vec::new\(\);"), r"params: { let mut \1: Vec<Ty> = Vec::new();", "*")],
+           obligation="a lifted function is emitted with the lifted body's type as its result type exactly when that holds a closure environment and differs from the declared "
+                      "type; the type recorded for its callers is the type of the function as emitted (same parameters, same result)",
+           contract="ensures fn_emitted_ok(old(state), final(state), f_name, f_params, f_ret_ty, body, old(toplevels)@, final(toplevels)@),",
+           loop_fn=lambda k, header, kw: (lambda mt: (f"invariant __mi{mt.group(1)} <= f_params.len(), __mo{mt.group(1)}@.len() == __mi{mt.group(1)}, "
+                                                      f"forall|j: int| 0 <= j < __mi{mt.group(1)} ==> #[trigger] __mo{mt.group(1)}@[j] == f_params@[j].1,\n decreases f_params.len() - __mi{mt.group(1)},") if mt else None)(
+                                                      re.search(r"while\s+__mi(\d+)\s*<\s*f_params\.len\(\)", header))),
+        Fn(file=L, name="transform_expr", rename="lift_var", ret="r", rules=["attrs", ("strip", "tast::")],
+           cut_from="MonoExpr::EVar { name, ty } => {", cut_inside=True, cut_before="@block-end", cut_tail="",
+           sig="fn lift_var(state: &mut State, scope: &mut Scope, name: String, ty: Ty) -> LiftExpr",
+           rewrites=[VC, ("state.liftenv.get_func(&name)", "state.get_func_ty(&name)", "*")],
+           obligation="a variable use carries the type its binder was given by the lifting: the closure's environment struct when the scope entry holds a closure, else the "
+                      "entry's type, else the (lifted) type of the top-level function of that name, else its own type",
+           contract="ensures r matches LiftExpr::EVar { name: n, ty: t } && n == name && var_ty_ok(old(scope), old(state), name@, ty, t),"),
         Fn(file=L, name="transform_expr", rename="lift_tuple", ret="r", attrs="#[verifier::loop_isolation(false)]", rules=["attrs", ("strip", "tast::"), "iter_any", "iter_map_collect"],
            cut_from=re.compile(r"MonoExpr::ETuple \{ items, ty(?:: _)? \} => \{"), cut_inside=True, cut_before="@block-end", cut_tail="",
            sig="fn lift_tuple(state: &mut State, scope: &mut Scope, items: Vec<MonoExpr>, ty: Ty) -> LiftExpr",
